@@ -104,3 +104,61 @@ fn k_blowfish_pairs_pi_tables() {
     assert!(fish.decrypt_pair(e.0, e.1) == (l, r), "decrypt_pair inverts encrypt_pair");
     kani::cover!(true, "reachable");
 }
+
+/// textbook Blowfish (Schneier 1993) over the crate's pi tables (whose 1042 words the Verus unit checks against the digits of pi): key schedule over key[0..8] and the 16-round network, written independently of the code under contract
+struct NbfRef { p: [u32; 18], s: [[u32; 256]; 4] }
+impl NbfRef {
+    fn f(&self, x: u32) -> u32 { ((self.s[0][(x >> 24) as usize].wrapping_add(self.s[1][((x >> 16) & 0xFF) as usize])) ^ self.s[2][((x >> 8) & 0xFF) as usize]).wrapping_add(self.s[3][(x & 0xFF) as usize]) }
+    fn enc(&self, mut l: u32, mut r: u32) -> (u32, u32) { for i in 0..16 { l ^= self.p[i]; r ^= self.f(l); std::mem::swap(&mut l, &mut r); } std::mem::swap(&mut l, &mut r); r ^= self.p[16]; l ^= self.p[17]; (l, r) }
+    fn dec(&self, mut l: u32, mut r: u32) -> (u32, u32) { for i in (2..18).rev() { l ^= self.p[i]; r ^= self.f(l); std::mem::swap(&mut l, &mut r); } std::mem::swap(&mut l, &mut r); r ^= self.p[1]; l ^= self.p[0]; (l, r) }
+    fn new(key: &[u8]) -> Self {
+        let mut b = NbfRef { p: constants::BLOWFISH_P, s: constants::BLOWFISH_S };
+        let mut j = 0usize;
+        for i in 0..18 { let mut d = 0u32; for _ in 0..4 { d = (d << 8) | key[j % 8] as u32; j += 1; } b.p[i] ^= d; }
+        let (mut l, mut r) = (0u32, 0u32);
+        for i in 0..9 { let (a, c) = b.enc(l, r); b.p[2 * i] = a; b.p[2 * i + 1] = c; l = a; r = c; }
+        for k in 0..4 { for i in 0..128 { let (a, c) = b.enc(l, r); b.s[k][2 * i] = a; b.s[k][2 * i + 1] = c; l = a; r = c; } }
+        b
+    }
+}
+
+//@unit props=C11 label=B tier=quick native=1 fn=blowfish::Blowfish::{new,encrypt,decrypt,pad_buffer} bound="by execution: 33 published ECB test vectors (Eric Young's set, 8-byte keys); 6 keys of 8..56 bytes x every message length 0..=200 against a textbook implementation"
+//@desc encrypt pads with zeros to a multiple of 8, takes each block as two little-endian words, applies standard Blowfish (key schedule over the first 8 key bytes) and emits two little-endian words per block in order; decrypt inverts it; the published vectors hold
+#[test]
+fn native_blowfish_messages() {
+    let mut cases = 0u64;
+    let vectors: [(u64, u64, u64); 33] = [(0x0000000000000000, 0x0000000000000000, 0x4EF997456198DD78), (0xFFFFFFFFFFFFFFFF, 0xFFFFFFFFFFFFFFFF, 0x51866FD5B85ECB8A), (0x3000000000000000, 0x1000000000000001, 0x7D856F9A613063F2), (0x1111111111111111, 0x1111111111111111, 0x2466DD878B963C9D),
+        (0x0123456789ABCDEF, 0x1111111111111111, 0x61F9C3802281B096), (0x1111111111111111, 0x0123456789ABCDEF, 0x7D0CC630AFDA1EC7), (0xFEDCBA9876543210, 0x0123456789ABCDEF, 0x0ACEAB0FC6A0A28D), (0x7CA110454A1A6E57, 0x01A1D6D039776742, 0x59C68245EB05282B),
+        (0x0131D9619DC1376E, 0x5CD54CA83DEF57DA, 0xB1B8CC0B250F09A0), (0x07A1133E4A0B2686, 0x0248D43806F67172, 0x1730E5778BEA1DA4), (0x3849674C2602319E, 0x51454B582DDF440A, 0xA25E7856CF2651EB), (0x04B915BA43FEB5B6, 0x42FD443059577FA2, 0x353882B109CE8F1A),
+        (0x0113B970FD34F2CE, 0x059B5E0851CF143A, 0x48F4D0884C379918), (0x0170F175468FB5E6, 0x0756D8E0774761D2, 0x432193B78951FC98), (0x43297FAD38E373FE, 0x762514B829BF486A, 0x13F04154D69D1AE5), (0x07A7137045DA2A16, 0x3BDD119049372802, 0x2EEDDA93FFD39C79),
+        (0x04689104C2FD3B2F, 0x26955F6835AF609A, 0xD887E0393C2DA6E3), (0x37D06BB516CB7546, 0x164D5E404F275232, 0x5F99D04F5B163969), (0x1F08260D1AC2465E, 0x6B056E18759F5CCA, 0x4A057A3B24D3977B), (0x584023641ABA6176, 0x004BD6EF09176062, 0x452031C1E4FADA8E),
+        (0x025816164629B007, 0x480D39006EE762F2, 0x7555AE39F59B87BD), (0x49793EBC79B3258F, 0x437540C8698F3CFA, 0x53C55F9CB49FC019), (0x4FB05E1515AB73A7, 0x072D43A077075292, 0x7A8E7BFA937E89A3), (0x49E95D6D4CA229BF, 0x02FE55778117F12A, 0xCF9C5D7A4986ADB5),
+        (0x018310DC409B26D6, 0x1D9D5C5018F728C2, 0xD1ABB290658BC778), (0x1C587F1C13924FEF, 0x305532286D6F295A, 0x55CB3774D13EF201), (0x0101010101010101, 0x0123456789ABCDEF, 0xFA34EC4847B268B2), (0x1F1F1F1F0E0E0E0E, 0x0123456789ABCDEF, 0xA790795108EA3CAE),
+        (0xE0FEE0FEF1FEF1FE, 0x0123456789ABCDEF, 0xC39E072D9FAC631D), (0x0000000000000000, 0xFFFFFFFFFFFFFFFF, 0x014933E0CDAFF6E4), (0xFFFFFFFFFFFFFFFF, 0x0000000000000000, 0xF21E9A77B71C49BC), (0x0123456789ABCDEF, 0x0000000000000000, 0x245946885754369A),
+        (0xFEDCBA9876543210, 0xFFFFFFFFFFFFFFFF, 0x6B5C5A9C5D9E0A5A)];
+    let le_block = |v: u64| -> [u8; 8] { let mut o = [0u8; 8]; o[..4].copy_from_slice(&((v >> 32) as u32).to_le_bytes()); o[4..].copy_from_slice(&(v as u32).to_le_bytes()); o };
+    for (key, plain, cipher) in vectors.iter() {
+        let bf = Blowfish::new(&key.to_be_bytes());
+        assert_eq!(bf.encrypt(&le_block(*plain)).expect("encrypt"), le_block(*cipher), "published vector: key {key:016X}, plaintext {plain:016X}");
+        assert_eq!(bf.decrypt(&le_block(*cipher)).expect("decrypt"), le_block(*plain), "published vector (decrypt): key {key:016X}");
+        cases += 1;
+    }
+    let keys: [&[u8]; 6] = [b"test_cas", b"test_case", &[0x80, 0xFF, 0x00, 0x7F, 0x81, 0xFE, 0x01, 0xC3], b"a much longer key than Blowfish's first eight bytes need", &[0xFF; 8], &[0, 0, 0, 0, 0, 0, 0, 1]];
+    for (ki, key) in keys.iter().enumerate() {
+        let (bf, rf) = (Blowfish::new(key), NbfRef::new(key));
+        for n in 0..=200usize {
+            let msg: Vec<u8> = (0..n).map(|i| (i * 31 + ki * 7 + n) as u8).collect();
+            let mut padded = msg.clone(); while padded.len() % 8 != 0 { padded.push(0); }
+            let mut want = vec![];
+            for b in padded.chunks(8) { let (l, r) = rf.enc(u32::from_le_bytes(b[0..4].try_into().unwrap()), u32::from_le_bytes(b[4..8].try_into().unwrap())); want.extend_from_slice(&l.to_le_bytes()); want.extend_from_slice(&r.to_le_bytes()); }
+            let got = bf.encrypt(&msg).expect("encrypt");
+            assert!(got == want, "key {ki}, {n}-byte message: ciphertext = zero-padded blocks through standard Blowfish, little-endian words, in order");
+            assert!(bf.decrypt(&got).expect("decrypt") == padded, "key {ki}, {n}-byte message: decrypt(encrypt(m)) = m zero-padded");
+            let mut back = vec![];
+            for b in got.chunks(8) { let (l, r) = rf.dec(u32::from_le_bytes(b[0..4].try_into().unwrap()), u32::from_le_bytes(b[4..8].try_into().unwrap())); back.extend_from_slice(&l.to_le_bytes()); back.extend_from_slice(&r.to_le_bytes()); }
+            assert!(back == padded, "the reference decrypts it too");
+            cases += 1;
+        }
+    }
+    println!("NATIVE native_blowfish_messages cases={cases}");
+}
